@@ -402,6 +402,59 @@ theorem send_se {a b : Kcp} (h : KSE a b) (buf : Bytes) : SendSE (send a buf) (s
   refine ite_rel SendSE _ ⟨⟨v, rfl⟩, rfl, rfl⟩ ?_
   exact ⟨⟨v, rfl⟩, rfl, rfl⟩
 
+/-! ### `update` -/
+
+def updK1 (k : Kcp) (now : U32) : Kcp := if k.updated = 0 then { k with updated := 1, ts_flush := now } else k
+
+def updReset (k : Kcp) (now : U32) : Bool :=
+  decide (itimediff now (updK1 k now).ts_flush ≥ 10000 ∨ itimediff now (updK1 k now).ts_flush < -10000)
+
+def updK2 (k : Kcp) (now : U32) : Kcp :=
+  if updReset k now then { updK1 k now with ts_flush := now } else updK1 k now
+
+def updTf (tsf interval now : U32) : U32 :=
+  if itimediff now (tsf + interval) ≥ 0 then now + interval else tsf + interval
+
+theorem update_eq (k : Kcp) (now : U32) :
+    update k now =
+      if (if updReset k now then 0 else itimediff now (updK1 k now).ts_flush) ≥ 0 then
+        flush { updK2 k now with ts_flush := updTf (updK2 k now).ts_flush (updK2 k now).interval now } true now
+      else ⟨updK2 k now, [], 0, false⟩ := rfl
+
+theorem KSE.readsU {a b : Kcp} (h : KSE a b) :
+    a.updated = b.updated ∧ a.ts_flush = b.ts_flush ∧ a.interval = b.interval := by
+  obtain ⟨v, rfl⟩ := h; exact ⟨rfl, rfl, rfl⟩
+
+theorem updK1_se {a b : Kcp} (h : KSE a b) (now : U32) : KSE (updK1 a now) (updK1 b now) := by
+  unfold updK1
+  rw [h.readsU.1]
+  split
+  · exact h.map (fun k => { k with updated := 1, ts_flush := now }) (fun _ _ => rfl)
+  · exact h
+
+theorem updReset_se {a b : Kcp} (h : KSE a b) (now : U32) : updReset a now = updReset b now := by
+  unfold updReset; rw [(updK1_se h now).readsU.2.1]
+
+theorem updK2_se {a b : Kcp} (h : KSE a b) (now : U32) : KSE (updK2 a now) (updK2 b now) := by
+  unfold updK2
+  rw [updReset_se h now]
+  split
+  · exact (updK1_se h now).map (fun k => { k with ts_flush := now }) (fun _ _ => rfl)
+  · exact updK1_se h now
+
+/-- `update` never reads `state` -/
+theorem update_se {a b : Kcp} (h : KSE a b) (now : U32) :
+    KSE (update a now).k (update b now).k ∧ (update a now).outs = (update b now).outs ∧
+    (update a now).interval = (update b now).interval ∧ (update a now).panic = (update b now).panic := by
+  have h2 := updK2_se h now
+  rw [update_eq, update_eq, updReset_se h now, (updK1_se h now).readsU.2.1, h2.readsU.2.1, h2.readsU.2.2]
+  by_cases hc : (if updReset b now then 0 else itimediff now (updK1 b now).ts_flush) ≥ 0
+  · rw [if_pos hc, if_pos hc]
+    exact flush_se (h2.map (fun k => { k with ts_flush := updTf (updK2 b now).ts_flush (updK2 b now).interval now })
+      (fun _ _ => rfl)) true now
+  · rw [if_neg hc, if_neg hc]
+    exact ⟨h2, rfl, rfl, rfl⟩
+
 /-- the remaining operations: pure readers and setters -/
 theorem misc_se {a b : Kcp} (h : KSE a b) :
     peekSize a = peekSize b ∧ waitSnd a = waitSnd b ∧ (∀ now, check a now = check b now) ∧
